@@ -608,7 +608,36 @@ func coordNontrivial(tags string) bool {
 
 // signature of an implementation-side violation, used to match known findings
 func coordSignature(prop, clause string, c *CCase, o *CObs) string {
+	if prop == "C07" && clause == "noShrink" && coordZeroSizeUnscraped(c) {
+		// the known zero-size defect (a healthy target with estimate 0 that finds no room asks for "(0,0)
+		// more space", which runOnce reads as nothing needed) seen from C07: the count is lowered although a
+		// shard is needed
+		return "C07/noShrink/unscraped-zero-size"
+	}
 	return fmt.Sprintf("%s/%s", prop, clause)
+}
+
+// coordZeroSizeUnscraped: some discovered target that no shard reports has a good explorer estimate of
+// size zero
+func coordZeroSizeUnscraped(c *CCase) bool {
+	reported := map[uint64]bool{}
+	for _, p := range c.Probes {
+		if p.Ready && p.StatusOk {
+			for _, s := range p.Status {
+				reported[s.Hash] = true
+			}
+		}
+	}
+	active := map[uint64]bool{}
+	for _, h := range c.Active {
+		active[h] = true
+	}
+	for _, e := range c.Explore {
+		if active[e.Hash] && !reported[e.Hash] && e.Health == 1 && e.Series == 0 && e.Total == 0 {
+			return true
+		}
+	}
+	return false
 }
 
 func loadCoordCorpus(dir string) []*CCase {
